@@ -14,6 +14,8 @@ SIGTERM, SIGKILL, SIGINT, SIGQUIT, SIGHUP, SIGUSR1, SIGSEGV = (
 
 def run_scenario(sc, record_state=True):
     from harness.simdaemon import Sim
+    import random as _random
+    _random.seed(sc.get("seed", 0))       # circus draws max_age_variance from the global generator: replays draw the same
     sim = Sim(sc["watchers"], check_delay=sc.get("check_delay", 1.0),
               warmup_delay=sc.get("warmup_delay", 0.0), record_state=record_state,
               file_mode=bool(sc.get("file_mode", False)), endpoint_owner=sc.get("endpoint_owner"))
@@ -223,7 +225,7 @@ def gen_watchers(rng, n, profile):
             w["stop_children"] = True
         if profile.get("max_age") and rng.random() < profile["max_age"]:
             w["max_age"] = rng.choice([1, 2])             # seconds; expiry is one of C03's termination causes
-            w["max_age_variance"] = 0
+            w["max_age_variance"] = rng.choice(profile.get("mage_vars", [0]))
         if profile.get("stop_signal") and rng.random() < 0.4:
             w["stop_signal"] = rng.choice([SIGINT, SIGQUIT, SIGUSR1, SIGHUP])
         if profile.get("hooks"):
@@ -344,7 +346,7 @@ def gen_request(rng, w, p, names):
     elif cmd == "kill":
         props = {"name": name, "waiting": waiting}
         if rng.random() < max(0.5, p.get("killover", 0.0)):
-            props["graceful_timeout"] = rng.choice([0, 0, 0.1, 0.2, 0.4] if p.get("killover") else [0, 0.1, 0.2, 0.4])
+            props["graceful_timeout"] = rng.choice([0, 0, 0.1, 0.2, 0.4, 0.15, 0.35] if p.get("killover") else [0, 0.1, 0.2, 0.4])
         if rng.random() < 0.4:
             props["signum"] = rng.choice([SIGINT, "quit", "SIGUSR1", SIGTERM, 0])      # (0: the null signal is a signal)
         if rng.random() < 0.5:
